@@ -1208,20 +1208,26 @@ Proof.
            Hcur Hn Hcn Hdn Hflatn Hdncn Hfzn Hnin Hpcn p0 ps Hkws).
 Qed.
 
-(* non-vacuity: the K4 instance of ex_ct3 holding the K2 instance of cell 0;
-   update_a5(a1=5, a3=None, _inplace=True): a fresh K2 with a1 = prepare(5) = 6, the old one untouched *)
-Definition ex_state5 : state := mkst [OInst 2 [(1, VInt 7); (3, VInt 9)]; OInst 4 [(5, VRef 0)]] 0 None.
+(* non-vacuity: class 9 with a9 : K2 (the annotation is the spec class itself: for
+   Optional[K2] the generated update_<a> takes no keywords -- the call is rejected by Python's
+   signature binding before the modelled code runs, see C17 -- so only this case is
+   reachable on the implementation; the theorem covers the model for both);
+   update_a9(a1=5, a3=None, _inplace=True): a fresh K2 with a1 = prepare(5) = 6, the old one untouched *)
+Definition ex_ct5 : ctable :=
+  ex_ct2 ++ [mkcls 9 [mkattr 9 (TSpec 2) VMissing None 9 true false None None []]
+                   false false None [9] 9 [] None None].
+Definition ex_state5 : state := mkst [OInst 2 [(1, VInt 7); (3, VInt 9)]; OInst 9 [(9, VRef 0)]] 0 None.
 Example C05_example_update_nested :
   closed (length (heap ex_state5)) (heap ex_state5) /\
   forallb (kw_ok ex_k2) [(1, VInt 5); (3, VNone)] = true /\
-  (let '(r, s') := run_helper ex_ct3 1 (HUpdate 5)
+  (let '(r, s') := run_helper ex_ct5 1 (HUpdate 9)
                      (mkh [] true true VMissing false None (Some [(1, VInt 5); (3, VNone)]) [] None) ex_state5 in
-   r = Ok (VRef 1) /\ nth_error (heap s') 1 = Some (OInst 4 [(5, VRef 2)]) /\
+   r = Ok (VRef 1) /\ nth_error (heap s') 1 = Some (OInst 9 [(9, VRef 2)]) /\
    nth_error (heap s') 2 = Some (OInst 2 [(1, VInt 6); (3, VNone)]) /\
    nth_error (heap s') 0 = nth_error (heap ex_state5) 0) /\
-  spec_helper ex_ct3 [] (absv (heap ex_state5) (VRef 1)) (SUpdate 5)
+  spec_helper ex_ct5 [] (absv (heap ex_state5) (VRef 1)) (SUpdate 9)
               (mkah [] true true AMissing false None (Some (akw [(1, VInt 5); (3, VNone)])) [] None)
-    = SOk (AInst 4 [(5, AInst 2 [(1, AInt 6); (3, ANone)])]).
+    = SOk (AInst 9 [(9, AInst 2 [(1, AInt 6); (3, ANone)])]).
 Proof.
   split.
   { intros i o Hi Ho. destruct i as [|[|i]]; vm_compute in Ho; inversion Ho; subst; try (simpl in Hi; lia);
